@@ -49,6 +49,39 @@ def _uniformity_p(values):
     return float(gammaincc(4.5, v / 2))
 
 
+def align_script(ex, model, rec):
+    """the model numbers scripted round results by call SITE instance (i-th potential call of the sequentialised run); the
+    native scripted rounds number them by call COUNT. When a potential call does not happen in the model (sample lost after a
+    read error) the rows are permuted so that the k-th call that does happen natively receives the row the model gave it."""
+    sc = getattr(ex, 'script', None)
+    if sc is None or model is None or not getattr(sc, 'calls', None):
+        return rec
+    live = []
+    for i, c in enumerate(sc.calls):
+        g = c[0]
+        if i >= sc.s:
+            break
+        v = g if isinstance(g, bool) else z3.is_true(model.eval(g, model_completion=True))
+        if v:
+            live.append(i)
+    order = live + [i for i in range(sc.s) if i not in live]
+    if order == list(range(sc.s)):
+        return rec
+    pos = {}
+    for p_, (kind, v) in enumerate(ex.inputs):
+        if isinstance(v, z3.ExprRef):
+            pos[str(v)] = p_
+    ins = rec['inputs']
+    old = [dict(x) for x in ins]
+    for k, src in enumerate(order):
+        for j in range(sc.items):
+            for nm in ('pass_%d_%d', 'q_%d_%d'):
+                a, b = pos.get(nm % (k, j)), pos.get(nm % (src, j))
+                if a is not None and b is not None:
+                    ins[a] = old[b]
+    return rec
+
+
 def fix_record(ex, model, rec):
     """make a replay record consistent with the summarised ThresholdQ: the model only says on which side of 0.0001 the
     uniformity P-value of every list passed to ThresholdQ lies; concrete Q-values realising those sides (lists may share
